@@ -603,31 +603,80 @@ theorem setAdd_nil_count (es : List Bytes) : (setAdd [] es).2 = es.eraseDups.len
   rw [hp.length_eq] at this
   simpa using this.symm
 
-/-! ### SUNIONSTORE tail on two operands -/
+/-! ### set.Union -/
 
-/-- typed unfolding of the `newOid` primitive (pure) -/
-@[simp] theorem run_newOid {α : Type} (c : Ctx) (s : State) (k : Nat → Prog α) :
-    (Prog.call .newOid k).run c s = (k (newOid s)).run c s := rfl
-/-- typed unfolding of the `tagOid` primitive -/
-@[simp] theorem run_tagOid {α : Type} (c : Ctx) (s : State) (key : Bytes) (o : Nat) (k : (Prim.tagOid key o).Res → Prog α) :
-    (Prog.call (.tagOid key o) k).run c s = (k ()).run c (tagOid s c.db key o) := rfl
+/-- **the union holds exactly the members of the operands** -/
+theorem mem_unionMembers (sets : List (List Bytes)) (x : Bytes) : x ∈ unionMembers sets ↔ ∃ ms ∈ sets, x ∈ ms := by
+  unfold unionMembers
+  rw [mem_setAdd]
+  simp [List.mem_flatten]
 
-/-- SUNIONSTORE tail on two unshared operands: whatever the write-back and aliasing steps do, the last step
-    is a SetValues of the destination with the union computed by Set.Add -/
-theorem run_sunionTail_store_two (c : Ctx) (s : State) (d ka kb : Bytes) (ma mb : List Bytes) (hm : c.cfg.maxMemory = 0) :
-    ∃ sX o, (sunionTail true d [(ka, 0, ma), (kb, 0, mb)]).run c s =
-      ((setValues c sX [(d, .set o (setAdd ma mb).1)]).1, .done (.ok (intReply (setAdd ma mb).1.length))) := by
-  by_cases hq : ma = (setAdd ma mb).1
-  · by_cases hd : ka = d
-    · refine ⟨s, 0, ?_⟩
-      simp [sunionTail, unionObjs, writeBack, ← hq, hd, run_setOrErr_single _ _ _ _ _ hm]
-    · refine ⟨tagOid s c.db ka (newOid s), newOid s, ?_⟩
-      simp [sunionTail, unionObjs, writeBack, ← hq, hd, run_setOrErr_single _ _ _ _ _ hm]
-  · by_cases hd : ka = d
-    · refine ⟨mutObj s c.db ka (.set 0 (setAdd ma mb).1), 0, ?_⟩
-      simp [sunionTail, unionObjs, writeBack, hq, hd, run_setOrErr_single _ _ _ _ _ hm]
-    · refine ⟨tagOid (mutObj s c.db ka (.set 0 (setAdd ma mb).1)) c.db ka (newOid (mutObj s c.db ka (.set 0 (setAdd ma mb).1))),
-        newOid (mutObj s c.db ka (.set 0 (setAdd ma mb).1)), ?_⟩
-      simp [sunionTail, unionObjs, writeBack, hq, hd, run_setOrErr_single _ _ _ _ _ hm]
+/-- the union is duplicate-free whatever the operands are (it is built by Set.Add from the empty set) -/
+theorem nodup_unionMembers (sets : List (List Bytes)) : (unionMembers sets).Nodup :=
+  nodup_setAdd [] _ List.nodup_nil
+
+/-- the value an operand key contributes to the one GetValues call of SUNION: nil when absent -/
+def valAt (s : State) (db : Nat) (k : Bytes) : Val :=
+  match s.lookup db k with
+  | some e => e.val
+  | none => .nil
+
+/-- GetValues over keys that are absent or hold a live set serves their values and changes nothing -/
+theorem getValues_setOrAbsent (c : Ctx) (s : State) (ks : List Bytes) (h : ∀ k, k ∈ ks → SetOrAbsent c s k) :
+    getValues c s ks = (s, ks.map (valAt s c.db)) := by
+  induction ks with
+  | nil => rfl
+  | cons k r ih =>
+    have hr := ih fun k' hk' => h k' (by simp [hk'])
+    rcases h k (by simp) with h0 | ⟨ms, ex, h1, l1⟩
+    · simp [getValues, h0, hr, valAt]
+    · simp [getValues, h1, l1, hr, valAt]
+
+/-- an absent key, or one that holds a set, is not refused by SUNION -/
+theorem notSetVal_valAt (c : Ctx) (s : State) (k : Bytes) (h : SetOrAbsent c s k) : notSetVal (valAt s c.db k) = false := by
+  rcases h with h0 | ⟨ms, ex, h1, _⟩
+  · simp [valAt, h0, notSetVal]
+  · simp [valAt, h1, notSetVal, asSet?]
+
+/-- the members an operand contributes, read off its value -/
+theorem asSet_valAt (s : State) (db : Nat) (k : Bytes) :
+    (asSet? (valAt s db k)).map (·.2) = membersAt s db k := by
+  unfold valAt membersAt
+  cases h : s.lookup db k with
+  | none => rfl
+  | some e =>
+    obtain ⟨v, ex⟩ := e
+    cases v <;> rfl
+
+/-! ### the SINTERSTORE operand loop -/
+
+/-- every operand absent or a live unshared set, with its existence flag: the loop reads the present ones
+    (state untouched) and hands over whether one was absent and the member lists in command order -/
+theorem run_storeLoop (c : Ctx) (s : State) :
+    ∀ (L : List (Bytes × Bool)) (kont : Bool → List (List Bytes) → Prog Res),
+    (∀ p ∈ L, p.2 = (s.lookup c.db p.1).isSome ∧ SetOrAbsent c s p.1) →
+    (storeLoop L kont).run c s = (kont (L.any fun p => !p.2) (L.filterMap fun p => membersAt s c.db p.1)).run c s := by
+  intro L
+  induction L with
+  | nil => intro kont _; simp [storeLoop]
+  | cons p r ih =>
+    intro kont h
+    obtain ⟨k, e⟩ := p
+    have hr : ∀ q ∈ r, q.2 = (s.lookup c.db q.1).isSome ∧ SetOrAbsent c s q.1 := fun q hq => h q (by simp [hq])
+    obtain ⟨he, hk⟩ := h (k, e) (by simp)
+    simp only at he hk
+    rcases hk with h0 | ⟨ms, ex, h1, l1⟩
+    · rw [h0] at he; subst he
+      simp [storeLoop, ih _ hr, membersAt, h0]
+    · rw [h1] at he; subst he
+      simp [storeLoop, getValues_live _ _ _ _ h1 l1, asSet?, ih _ hr, membersAt, h1]
+
+/-- the existence flags zipped onto the keys -/
+theorem zip_keysExist (s : State) (db : Nat) (ks : List Bytes) :
+    ks.zip (keysExist s db ks) = ks.map fun k => (k, (s.lookup db k).isSome) := by
+  unfold keysExist
+  induction ks with
+  | nil => rfl
+  | cons a r ih => simp [ih]
 
 end Sugar
